@@ -21,26 +21,32 @@ def _cfg(tier):
     # the full question sequence on one result object (see the harness) on the shorter trajectories
     for n in ([2, 3] if tier == 'quick' else [2, 3, 4]):
         out.append({'n': n, 'mode': 'quantity', 'unit': 'Foot', 'seq': True})
+    # rows of an extra-data result that are pure EVENT rows (zero crossing / Mach crossing between recording steps, no RANGE bit):
+    # they are rows of the trajectory like any other - each position in turn, each event flag
+    for n in ([3, 4] if tier == 'quick' else [3, 4, 5]):
+        for i in range(n):
+            out.append({'n': n, 'mode': 'quantity', 'unit': 'Yard', 'ev': [i], 'evflag': (1, 2, 4)[i % 3]})
+        out.append({'n': n, 'mode': 'quantity', 'unit': 'Meter', 'ev': list(range(1, n - 1)), 'evflag': 4})
     return out
 
 
-def _traj(ctx, p, n):
+def _traj(ctx, p, n, ev=(), evflag=4, pre=''):
     d, drop = [], []
     for i in range(n):
-        di = ctx.real(f'dist{i}', 0, 1e5)
+        di = ctx.real(f'{pre}dist{i}', 0, 1e5)
         if i:
             ctx.assume(di > d[-1])
         d.append(di)
-        drop.append(ctx.real(f'drop{i}', -1e4, 1e4))
+        drop.append(ctx.real(f'{pre}drop{i}', -1e4, 1e4))
     # the sight-line distance column is independent of the (horizontal) distance column: any inclination
     look = []
     for i in range(n):
-        li = ctx.real(f'lookdist{i}', 0, 2e5)
+        li = ctx.real(f'{pre}lookdist{i}', 0, 2e5)
         ctx.assume(li >= d[i])
         if i:
             ctx.assume(li > look[-1])
         look.append(li)
-    rows = [mkrow(p, time=float(i), dist_ft=d[i], drop_ft=drop[i], look_ft=look[i]) for i in range(n)]
+    rows = [mkrow(p, time=float(i), dist_ft=d[i], drop_ft=drop[i], look_ft=look[i], flag=(evflag if i in ev else (8 if i % 3 else 9))) for i in range(n)]
     return d, drop, rows
 
 
@@ -50,12 +56,12 @@ def _traj(ctx, p, n):
          bounds='trajectories of N = 1..5 (quick) / 1..7 (thorough) rows, distances strictly increasing in [0,1e5] ft, drops arbitrary in '
                 '[-1e4,1e4] ft; range request and target height (>= 0) symbolic, given as quantity (each distance unit) or bare number under '
                 'the preferred unit; the same result object asked four more times (taller target: all claims again + monotone; the first height again; another range; the taller target again); '
-                'sight-line distance column independent of the distance column (any inclination); symbolic look angle argument',
+                'sight-line distance column independent of the distance column (any inclination); symbolic look angle argument; rows carry RANGE, RANGE|ZERO_UP or (n = 3, 4: each position in turn) a pure event flag without the RANGE bit',
          assumptions=['floats as reals: the scans only compare differences of drops with half the height (order-only code, exact up to rounding of the subtraction)'])
-def c16_space(ctx, n, mode, unit, seq=False):
+def c16_space(ctx, n, mode, unit, seq=False, ev=(), evflag=4):
     p = pybc()
     U = getattr(p.Unit, unit)
-    d, drop, rows = _traj(ctx, p, n)
+    d, drop, rows = _traj(ctx, p, n, ev, evflag)
     hr = p.HitResult(None, rows, True)
     R = ctx.real('at_range_ft', 0, 1e5)          # request (feet)
     h = ctx.real('height_ft', 0, 1e4)            # target height (feet)
@@ -136,3 +142,42 @@ def c16_noextra(ctx):
     except AttributeError:
         ok = True
     ctx.check('no_extra_data_rejected', ok)
+
+
+@harness('C16.successive', 'C16', configs=lambda tier: [{'n': n} for n in ([2, 3] if tier == 'quick' else [2, 3, 4])], functions=FUNCS, cost=3,
+         must_reach=['check:inside_within_half_height', 'check:bound_is_edge_or_exceeds'],
+         bounds='six result objects of the same length over two independent symbolic trajectories (A, B, A, B, A, B), each created, asked the same '
+                'question and RELEASED before the next is created (CPython\'s list free-list is drained first, so the next row list gets the '
+                'address of the one just freed): every answer is about the rows of the result that was asked',
+         assumptions=['address reuse is CPython allocator behaviour: when a new list does not land on the freed address the harness is an ordinary two-trajectory check'])
+def c16_successive(ctx, n):
+    p = pybc()
+    R = ctx.real('at_range_ft', 0, 1e5)
+    h = ctx.real('height_ft', 0, 1e4)
+    sets = [tuple(_traj(ctx, p, n, pre=f't{k}_')[2]) for k in range(2)]
+    drain = [[] for _ in range(160)]             # empties the interpreter's free-list of list objects (kept alive to the end)
+    for k in range(6):
+        lst = [*sets[k % 2]]                     # a fresh list object, taken from the free-list (the previous result and its list were released just before)
+        hr = p.HitResult(None, lst, True)
+        rows = sets[k % 2]
+        din = [r.distance.raw_value for r in rows]
+        drop = [r.target_drop.raw_value for r in rows]
+        try:
+            ds = hr.danger_space(p.Distance.Foot(R), p.Distance.Foot(h), p.Angular.Radian(0.0))
+        except ArithmeticError:
+            ctx.check('beyond_raises', R * 12 > din[-1], info={'result': k})
+            del hr, lst
+            continue
+        ia, ib, ie = index_of(rows, ds.at_range), index_of(rows, ds.begin), index_of(rows, ds.end)
+        ctx.check('rows_of_trajectory', ia is not None and ib is not None and ie is not None, info={'result': k})
+        if ia is None or ib is None or ie is None:
+            return
+        half = h * 12 / 2
+        ctx.check('at_range_is_first_reaching', ctx.all([din[ia] >= R * 12] + [din[j] < R * 12 for j in range(ia)]), info={'result': k})
+        for j in range(ib + 1, ie):
+            if j != ia:
+                ctx.check('inside_within_half_height', ctx.abs(drop[j] - drop[ia]) <= half, info={'row': j, 'at': ia, 'result': k})
+        ctx.check('bound_is_edge_or_exceeds', (ib == 0) or (ctx.abs(drop[ib] - drop[ia]) >= half) or ib == ia, info={'bound': 'begin', 'result': k})
+        ctx.check('bound_is_edge_or_exceeds', (ie == n - 1) or (ctx.abs(drop[ie] - drop[ia]) >= half) or ie == ia, info={'bound': 'end', 'result': k})
+        del hr, lst, ds
+    del drain
